@@ -16,9 +16,9 @@ Syms(s) == [j \in 1..Len(s) |-> Sym(s[j])]
 SymsAll(ss) == [j \in 1..Len(ss) |-> Syms(ss[j])]
 
 VARIABLE i
-TInit == i \in 1..Len(Log)
-TNext == UNCHANGED i
-TSpec == TInit /\ [][TNext]_i
+TInit == i \in 1..Len(Log) /\ chunks = <<>> /\ wire = <<>> /\ pos = 0 /\ dec = <<>>    \* (the variables of GwSlip are not used here)
+TNext == UNCHANGED <<i, vars>>
+TSpec == TInit /\ [][TNext]_<<i, vars>>
 
 \* C03: exactly the non-empty chunks arrive
 Delivered == SymsAll(Log[i].d) = NonEmpty(SymsAll(Log[i].c))
